@@ -528,7 +528,9 @@ func (c *Ctx) instr(fr *Frame, st *State, reach string, ins ssa.Instruction) {
 			if _, isF := x.Call.Value.(*ssa.Function); !isF {
 				if _, isB := x.Call.Value.(*ssa.Builtin); !isB {
 					if mc, isC := x.Call.Value.(*ssa.MakeClosure); isC {
-						_ = mc
+						for _, b := range mc.Bindings {
+							d.bind = append(d.bind, c.val(fr, b))
+						}
 					} else {
 						d.fnv = c.val(fr, x.Call.Value)
 					}
@@ -546,7 +548,33 @@ func (c *Ctx) instr(fr *Frame, st *State, reach string, ins ssa.Instruction) {
 					c.notes["recover-defer"]++
 					continue
 				}
-				bail("deferred closure")
+				// a deferred closure is executed at the function's exit with its captured variables bound
+				cfn := mc.Fn.(*ssa.Function)
+				if !noLoops(cfn) || fr.depth >= maxInlineDepth {
+					bail("deferred closure with loops")
+				}
+				c.pendingBindings = d.bind
+				if c.pendingBindings == nil {
+					c.pendingBindings = []Val{}
+				}
+				c.inlineChain = append(c.inlineChain, shortFn(cfn))
+				_, out, rr := c.exec(cfn, d.args, st.clone(), and(reach, d.reach), fr.depth+1)
+				c.inlineChain = c.inlineChain[:len(c.inlineChain)-1]
+				if rr != "false" {
+					merged := c.mergeStates([]string{not(d.reach), d.reach}, []*State{st.clone(), out})
+					if d.reach == "true" {
+						merged = out
+					}
+					locals := st.locals
+					*st = *merged
+					for k, v := range locals {
+						if _, ok := st.locals[k]; !ok {
+							st.locals[k] = v
+						}
+					}
+				}
+				c.notes["deferred-closure"]++
+				continue
 			}
 			c.callWith(fr, st, and(reach, d.reach), &d.call.Call, d.call.Pos(), d.args, d.fnv, nil)
 		}
@@ -556,8 +584,19 @@ func (c *Ctx) instr(fr *Frame, st *State, reach string, ins ssa.Instruction) {
 			fr.env[x] = Sc{"79", "Int"}
 			return
 		}
+		if strings.HasPrefix(fn.Synthetic, "bound method") {
+			// a method value (x.M) used as a function value: a non-nil function; calls through it go by the callback
+			// contract of the field/parameter it is bound to (the binding itself is an assumed refinement, listed)
+			c.notes["method-value:"+fn.Name()]++
+			c.depsUsed["method value "+fn.Name()+" passed as a callback: assumed to satisfy the callback contract of its use site (refinement not checked)"] = true
+			c.n++
+			fr.env[x] = Sc{fmt.Sprintf("%d", 1000+c.n), "Int"}
+			return
+		}
 		for _, r := range *x.Referrers() {
-			if _, ok := r.(*ssa.Defer); !ok {
+			switch r.(type) {
+			case *ssa.Defer, *ssa.DebugRef:
+			default:
 				bail("closure value")
 			}
 		}
